@@ -46,6 +46,11 @@ def _case(draw):
 
 def _large_cases(th):
     yield {'spec': D.large_curated_spec(), 'ncc': 3, 'large': True}
+    # one cluster stemming from 280 templates with uneven spike counts
+    yield {'spec': D.big_merge_spec(), 'ncc': 16, 'large': True, 'bigmerge': 280}
+    if th:
+        yield {'spec': D.big_merge_spec(nt=600, merged=513, ns=4000, seed=8), 'ncc': 16,
+               'large': True, 'bigmerge': 513}
     # a single stray spike of another template among 120 000 (thorough: up to 10**6)
     for n in [120000] + ([100001, 10 ** 6] if th else []):
         yield {'spec': D.stray_spike_spec(n), 'ncc': 12, 'large': True, 'stray': n}
@@ -247,7 +252,8 @@ def check(case):
 def classify(case, info):
     s = case['spec']
     labels = (['large:%d-templates-uint16' % s['nt']] if case.get('large') and not case.get('stray')
-              else []) + (['one-stray-spike-in-%d' % case['stray']] if case.get('stray') else []) + [
+              else []) + (['one-stray-spike-in-%d' % case['stray']] if case.get('stray') else []) + (
+                  ['cluster-of-%d-templates' % case['bigmerge']] if case.get('bigmerge') else []) + [
         'curated' if s['curation'] else 'un-curated', 'ncc:%s' % ('<=4' if case['ncc'] <= 4
                                                                          else '>4')]
     nt = False
